@@ -155,6 +155,12 @@ let dispatch (f : ostr) (a : v list) : ostr =
   | "home_trash_dir_path_from_env", [VL env] -> pl (home_trash_dir_path_from_env (pairs_of env))
   | _ -> failwith ("unknown function or arity: " ^ f)
 
+let sv t = match parse_v t with VS x -> x | _ -> failwith "s expected"
+let lv t = match parse_v t with VL x -> x | _ -> failwith "l expected"
+let nv t = match parse_v t with VN x -> x | _ -> failwith "n expected"
+let bv t = match parse_v t with VB x -> x | _ -> failwith "b expected"
+let zv t = match parse_v t with VZ x -> x | _ -> failwith "z expected"
+
 let () =
   try
     while true do
@@ -164,15 +170,31 @@ let () =
           match String.split_on_char '\t' line with
           | [] -> "!ERR empty"
           | "run_put" :: paths :: td :: mode :: fv :: hf :: verbose :: env :: uid :: fuel :: answers ->
-              let sv t = match parse_v t with VS x -> x | _ -> failwith "s expected" in
-              let lv t = match parse_v t with VL x -> x | _ -> failwith "l expected" in
-              let nv t = match parse_v t with VN x -> x | _ -> failwith "n expected" in
-              let bv t = match parse_v t with VB x -> x | _ -> failwith "b expected" in
               let o = { po_paths = lv paths; po_trash_dir = opt_of_str (sv td);
                         po_mode = (match int_of_n (nv mode) with 1 -> ModeInteractive | 2 -> ModeForce | _ -> ModeUnspecified);
                         po_forced_volume = opt_of_str (sv fv); po_home_fallback = bv hf; po_verbose = nv verbose;
                         po_environ = pairs_of (lv env); po_uid = nv uid; po_fuel = nat_of_int (int_of_n (nv fuel)) } in
               prun pn (run_oracle (put_main o) (split_answers answers))
+          | "run_list" :: tds :: size :: files :: env :: uid :: answers ->
+              let o = { lo_trash_dirs = lv tds; lo_size = bv size; lo_files = bv files;
+                        lo_environ = pairs_of (lv env); lo_uid = nv uid } in
+              prun pn (run_oracle (list_main o) (split_answers answers))
+          | "run_empty" :: tds :: inter :: days :: dry :: verbose :: env :: uid :: answers ->
+              let o = { eo_trash_dirs = lv tds;
+                        eo_interactive = (match int_of_n (nv inter) with 0 -> None | 1 -> Some true | _ -> Some false);
+                        eo_days = (if days = "N" then None else Some (zv days));
+                        eo_dry_run = bv dry; eo_verbose = nv verbose;
+                        eo_environ = pairs_of (lv env); eo_uid = nv uid } in
+              prun pn (run_oracle (empty_main o) (split_answers answers))
+          | "run_rm" :: args :: env :: uid :: answers ->
+              let o = { ro_args = lv args; ro_environ = pairs_of (lv env); ro_uid = nv uid } in
+              prun pn (run_oracle (rm_main o) (split_answers answers))
+          | "run_restore" :: path :: sort :: td :: ow :: env :: uid :: answers ->
+              let o = { ro_path = sv path;
+                        ro_sort = (match int_of_n (nv sort) with 0 -> SortByDate | 1 -> SortByPath | _ -> SortNone);
+                        ro_trash_dir = opt_of_str (sv td); ro_overwrite = bv ow;
+                        rs_environ = pairs_of (lv env); rs_uid = nv uid } in
+              prun pn (run_oracle (restore_main o) (split_answers answers))
           | f :: args -> dispatch f (List.map parse_v args)
         with e -> "!ERR " ^ Printexc.to_string e in
       print_string out; print_char '\n'
